@@ -9,6 +9,7 @@ import (
 	"path/filepath"
 	"sort"
 	"strconv"
+	"strings"
 	"sync"
 	"testing"
 	"time"
@@ -266,6 +267,12 @@ func Check(t *testing.T, quick, thorough int, prop func(*rapid.T)) {
 	must(flag.Set("rapid.checks", strconv.Itoa(n)))
 	must(flag.Set("rapid.seed", strconv.FormatUint(SeedFor(t.Name()), 10)))
 	must(flag.Set("rapid.failfile", ""))
+	// bound minimisation: a failing case is already a reproduction, shrinking only makes it smaller
+	shrink := "20s"
+	if Thorough() {
+		shrink = "60s"
+	}
+	must(flag.Set("rapid.shrinktime", shrink))
 	if rf := os.Getenv("VERIF_REPLAY_FAIL"); rf != "" {
 		if os.Getenv("VERIF_REPLAY_TEST") != t.Name() {
 			t.Skip("replay of another test")
@@ -354,4 +361,17 @@ func Scripted(t *testing.T, prop func(*rapid.T)) {
 		t.Skip("replay of another test")
 	}
 	rapid.Check(t, prop)
+}
+
+// Abort reports a violation that must not be minimised (every further execution
+// would block for the length of a watchdog): it records the case, flushes the
+// evidence and ends the process with the exit status of a failed test.
+func Abort(msg string) {
+	Rec.Violation(msg)
+	fmt.Printf("VERIF-VIOLATION %s\n", strings.ReplaceAll(msg, "\n", "\n    "))
+	if out := os.Getenv("VERIF_OUT"); out != "" {
+		_ = os.WriteFile(filepath.Join(out, "hang.case.json"), []byte(fmt.Sprintf("%q\n", msg)), 0o644)
+	}
+	Rec.Flush()
+	os.Exit(1)
 }
